@@ -1929,9 +1929,15 @@ func (r *Raft) becomeLeader() {
 // becomeFollower transitions this node to the follower state.
 func (r *Raft) becomeFollower(leaderID string, term uint64) {
 	r.state = Follower
+
+	// A node may vote for at most one candidate in a term, so the vote
+	// is only reset when the node moves to a more up-to-date term.
+	if term > r.currentTerm {
+		r.votedFor = ""
+	}
+
 	r.currentTerm = term
 	r.leaderID = leaderID
-	r.votedFor = ""
 	r.persistTermAndVote()
 	r.resetSnapshotFiles()
 
